@@ -3,9 +3,10 @@ import re
 from vlib import core, drivers
 
 PROP = 'C15'
-MODULES = ['PistacheModel.Props.C15', 'PistacheModel.Props.C15Wire']
+MODULES = ['PistacheModel.Props.C15', 'PistacheModel.Props.C15Wire', 'PistacheModel.Props.C15Late']
 THEOREMS = ['Pistache.ClientPool.Props.' + t for t in ('run_inv', 'own_response', 'connection_limit', 'in_step', 'holders_run', 'settled_at_most_once', 'old_client_misattributes')] + \
-           ['Pistache.ClientPool.Wire.' + t for t in ('receive_segmentation_irrelevant', 'waits_for_last_read', 'own_response_on_the_wire')]
+           ['Pistache.ClientPool.Wire.' + t for t in ('receive_segmentation_irrelevant', 'waits_for_last_read', 'own_response_on_the_wire')] + \
+           ['Pistache.ClientPool.Props.' + t for t in ('run2_inv', 'own_response_late', 'settled_at_most_once_late', 'connection_limit_late', 'in_step_late', 'held_exactly_once_late', 'late_request_is_stranded', 'next_completion_hands_over')]
 
 def gen(tier, rnd):
     L = ['cl 1 2 1500 I,I,I,I,I,/,I,I,I,/,I,/,I,I,I,I', 'cl 1 1 1500 I,/,I,I,/,I', 'cl 2 3 1500 I,I,I,I,/,I,/,D200,I,I,I,I', 'cl 1 1 2500 D600:t300,I,I', 'cl 1 1 2500 D600:t300,D600:t300,I', 'cl 1 2 1500 N:t300,I,I', 'cl 1 1 2000 I,I,I,I', 'cl 2 3 3000 I,D500:t200,I,I,N:t300,K,B,I,I,I']
